@@ -1223,7 +1223,7 @@ impl Property for C19 {
     fn plan(tier: Tier) -> Plan {
         match tier {
             Tier::Quick => Plan { shards: 16, cases_per_shard: 70, max_shrink_iters: 120 },
-            Tier::Thorough => Plan { shards: 16, cases_per_shard: 1500, max_shrink_iters: 300 },
+            Tier::Thorough => Plan { shards: 16, cases_per_shard: 900, max_shrink_iters: 300 },
         }
     }
     fn strategy(tier: Tier) -> BoxedStrategy<Case> {
